@@ -54,18 +54,11 @@ R = TypeVar("R")
 
 
 def stack_to_first_dim(arr1: ArrayLike, arr2: ArrayLike):
-    # Coerce to array, if literal.
+    # `arr1` holds a batch of leaves, `arr2` one more leaf of the same shape: append it as
+    # the last row. (Leaves keep their own shape: nothing is squeezed or flattened.)
     arr1 = jnp.array(arr1, copy=False)
     arr2 = jnp.array(arr2, copy=False)
-    # Ensure both arrays are at least 2D
-    if arr1.ndim <= 1:
-        arr1 = arr1.reshape(-1, 1)
-    if arr2.ndim <= 1:
-        arr2 = arr2.reshape(-1, 1)
-
-    # Stack the arrays along the first dimension
-    result = jnp.concatenate([arr1, arr2], axis=0)
-    return jnp.squeeze(result)
+    return jnp.concatenate([arr1, arr2[None]], axis=0)
 
 
 #######################
